@@ -43,6 +43,13 @@ type Gen struct {
 	w       map[string]int
 	nOps    int
 	pending []string // op kinds to generate next (directed hook scenarios)
+	// directed scenario of profile "heavy": one allow-listed bidder places many bids on a few price levels of one
+	// batch auction, more than its maximum allows, and the auction is then closed
+	heavyA      uint64
+	heavyU      int
+	heavyCap    math.Int
+	heavyPrices []string
+	heavyDone   map[uint64]bool
 }
 
 var profiles = map[string]map[string]int{
@@ -58,13 +65,14 @@ var profiles = map[string]map[string]int{
 func init() {
 	profiles["extreme"] = map[string]int{"CFA": 6, "CBA": 8, "CAN": 1, "BID": 44, "MOD": 8, "ADDMSG": 0, "PARAMS": 1, "APIADD": 14, "APIUPD": 3, "BLOCK": 18, "SEND": 1, "LISTEN": 0, "GENESIS": 1, "FBLOCK": 0, "QUERY": 1}
 	// crowd: every account may bid in every auction; many bidders per settlement
+	profiles["heavy"] = map[string]int{"CFA": 1, "CBA": 10, "CAN": 1, "BID": 30, "MOD": 8, "ADDMSG": 0, "PARAMS": 1, "APIADD": 12, "APIUPD": 3, "BLOCK": 10, "SEND": 1, "LISTEN": 0, "GENESIS": 1, "FBLOCK": 0, "QUERY": 1}
 	profiles["crowd"] = map[string]int{"CFA": 3, "CBA": 5, "CAN": 0, "BID": 60, "MOD": 8, "ADDMSG": 0, "PARAMS": 1, "APIADD": 4, "APIUPD": 2, "BLOCK": 10, "SEND": 1, "LISTEN": 0, "GENESIS": 1, "FBLOCK": 0, "QUERY": 2}
 }
 
-var profileOrder = []string{"fixed", "batch", "multi", "hooks", "genesis", "fault", "malformed", "batch", "crowd", "fixed", "crowd", "multi", "extreme"}
+var profileOrder = []string{"fixed", "batch", "multi", "hooks", "genesis", "fault", "malformed", "batch", "crowd", "fixed", "crowd", "multi", "extreme", "heavy"}
 
 func NewGen(seed uint64, e *Env, profile string) *Gen {
-	return &Gen{r: &Rng{seed}, e: e, profile: profile, w: profiles[profile]}
+	return &Gen{r: &Rng{seed}, e: e, profile: profile, w: profiles[profile], heavyDone: map[uint64]bool{}}
 }
 
 func (g *Gen) bad() int { // percentage of deliberately malformed field values
@@ -436,6 +444,33 @@ func (g *Gen) bid() Op {
 	return NewOp("BID", "who", g.who(u), "a", g.auctionId(a), "bt", bt, "price", ps, "coin", coin)
 }
 
+// one bid of the heavy scenario: a quarter or so of the bidder's maximum, on one of the chosen price levels
+func (g *Gen) heavyBid() Op {
+	var a types.AuctionI
+	for _, x := range g.auctions() {
+		if x.GetId() == g.heavyA {
+			a = x
+		}
+	}
+	if a == nil || a.GetStatus() != types.AuctionStatusStarted {
+		return g.bid()
+	}
+	sd, pd := fmt.Sprint(denomIdx(a.GetSellingCoin().Denom)), fmt.Sprint(denomIdx(a.GetPayingCoinDenom()))
+	ps := g.heavyPrices[g.r.N(len(g.heavyPrices))]
+	q := mulDiv(g.heavyCap, 1, g.r.PickI(3, 4, 4, 5, 7)).AddRaw(int64(g.r.N(4)))
+	if !q.IsPositive() {
+		q = math.NewInt(1)
+	}
+	if g.r.P(75) {
+		return NewOp("BID", "who", fmt.Sprintf("u%d", g.heavyU), "a", fmt.Sprint(g.heavyA), "bt", "3", "price", ps, "coin", sd+":"+q.String())
+	}
+	w := pDec(ps).MulInt(q).Ceil().TruncateInt().AddRaw(g.r.PickI(0, 1, -1))
+	if !w.IsPositive() {
+		w = math.NewInt(1)
+	}
+	return NewOp("BID", "who", fmt.Sprintf("u%d", g.heavyU), "a", fmt.Sprint(g.heavyA), "bt", "2", "price", ps, "coin", pd+":"+w.String())
+}
+
 func (g *Gen) mod() Op {
 	// pick a bid of a started batch auction when there is one
 	var cands []types.Bid
@@ -730,6 +765,38 @@ func (g *Gen) Next() Op {
 			}
 		}
 	}
+	if g.profile == "heavy" && len(g.pending) == 0 {
+		for _, a := range as {
+			ba, ok := a.(*types.BatchAuction)
+			al := g.allowedOf(a.GetId())
+			if !ok || a.GetStatus() != types.AuctionStatusStarted || g.heavyDone[a.GetId()] || len(al) == 0 || !g.r.P(60) {
+				continue
+			}
+			g.heavyDone[a.GetId()] = true
+			x := al[0]
+			for _, y := range al {
+				if y.MaxBidAmount.GT(x.MaxBidAmount) {
+					x = y
+				}
+			}
+			g.heavyA, g.heavyU, g.heavyCap = a.GetId(), g.userIdx(x.Bidder), x.MaxBidAmount
+			g.heavyPrices = nil
+			for _, c := range []string{"250000000000000000", "333333333333333333", "142857142857142857", "666666666666666667", "1100000000000000000",
+				"1500000000000000000", "1000000000000000001", "2000000000000000001", "3000000000000000000", "7000000000000000001"} {
+				if pDec(c).GTE(ba.MinBidPrice) && g.r.P(60) && len(g.heavyPrices) < 4 {
+					g.heavyPrices = append(g.heavyPrices, c)
+				}
+			}
+			if len(g.heavyPrices) == 0 {
+				g.heavyPrices = []string{encDec(ba.MinBidPrice)}
+			}
+			for i := 0; i < 14+g.r.N(8); i++ {
+				g.pending = append(g.pending, "HBID")
+			}
+			g.pending = append(g.pending, "HEND")
+			break
+		}
+	}
 	// an auction nobody may bid in is dull: allow-list somebody soon
 	for _, a := range as {
 		if (a.GetStatus() == types.AuctionStatusStarted || a.GetStatus() == types.AuctionStatusStandBy) && len(g.allowedOf(a.GetId())) == 0 && g.r.P(40) {
@@ -783,6 +850,19 @@ func (g *Gen) Next() Op {
 		g.pending = g.pending[1:]
 	}
 	switch kind {
+	case "HBID":
+		return g.heavyBid()
+	case "HEND":
+		for _, a := range as {
+			if a.GetId() == g.heavyA && len(a.GetEndTimes()) > 0 {
+				t := a.GetEndTimes()[len(a.GetEndTimes())-1].UnixNano() + g.r.PickI(0, 1)
+				if t < g.now() {
+					t = g.now()
+				}
+				return NewOp("BLOCK", "t", fmt.Sprint(t))
+			}
+		}
+		return NewOp("BLOCK", "t", fmt.Sprint(g.blockTime()))
 	case "CFA":
 		return g.create(true)
 	case "CBA":
